@@ -336,6 +336,38 @@ func streamC02(r *Rand, n int, o *Out) {
 		check(h)
 		o.EmitHist("t", h)
 	}
+	// very long inputs (the property names them), on the Go code only — the model is not asked to replay a 256 KB string:
+	// every repetition family, as input, base, reference and setter value, under the default parser, two option sets and
+	// the four predefined profiles. A panic is recovered and reported; a hang is seen by the watchdog.
+	{
+		size := 1 << 15
+		if n >= 20000 {
+			size = 1 << 18
+		}
+		rep := func(s string) string { return strings.Repeat(s, size/len(s)+1) }
+		longs := []string{"http://h/" + rep("a/"), "http://h/" + rep("../"), "http://h/" + rep("%2e%2E/"), "http://" + rep("a") + "/", "http://" + rep("a.") + "com/",
+			"http://" + rep("u:p@") + "h/", "http://h:" + rep("9") + "/", "http://[" + rep("1:") + "]/", "http://" + rep("1.") + "1/", "http://h/?" + rep("a=b&"),
+			"http://h/?" + rep("%2525"), "http://h/#" + rep("\xff"), rep("x") + "://h/", rep(" ") + "http://h/" + rep("\t"), "sc:" + rep("opaque "), "file:" + rep("/"),
+			"file://" + rep("C|"), rep("\\"), rep("%"), rep("\xf0\x9f"), "http://h/" + rep("\u00e9"), "http://" + rep("%41") + "/", "http://" + rep("xn--") + "a/"}
+		cfgs := []*Cfg{defaultCfg, cfgReportFail, cfgFromMask(NewRand(3), (1<<2)|(1<<3)|(1<<4)|(1<<7))}
+		for _, in := range longs {
+			h := &Hist{}
+			for _, c := range cfgs {
+				if k := h.Parse(c, in); k >= 0 {
+					h.Resolve(k, in)
+					h.Set(k, 6, in)
+					h.Set(k, 3, in)
+					h.Set(k, 7, in)
+				}
+				h.ParseRef(c, "http://u:p@h:8/a/b?q#f", in)
+			}
+			for _, p := range predefinedProfiles {
+				h.CanonParse(p, in)
+			}
+			check(h)
+			o.Count("very_long_inputs")
+		}
+	}
 	if n >= 20000 {
 		// thorough tier: a stride through all 2^19 subsets of the option constructors on a fixed input pool
 		streamC02Subsets(r, o, 41+r.N(7))
